@@ -105,34 +105,15 @@ Combined Scheme MatchS_MatchSeq_ind from MatchS_mind, MatchSeq_mind.
 (* The relation of the property text: "pats matches the first j statements of blk" *)
 Definition MatchRel (pats : list pstmt) (blk : list stmt) (j : nat) : Prop := MatchSeq pats blk (Some j).
 
-(* patterns on which the code and the specification may differ (see Model.quirks) *)
-Fixpoint benign_e (p : pexpr) : bool :=
-  match p with
-  | PStride _ (Some O) => false
-  | PRead _ idx => forallb benign_e idx
-  | PUSub a => benign_e a
-  | PBinOp _ l r => benign_e l && benign_e r
-  | PExtern _ args => forallb benign_e args
-  | _ => true
-  end.
+(* patterns on which the code and the specification may differ (see Model.quirks): a call pattern
+   with an argument that is not a hole *)
 Definition all_eholes (l : list pexpr) : bool :=
   forallb (fun p => match p with PE_Hole => true | _ => false end) l.
 Fixpoint benign_s (p : pstmt) : bool :=
   match p with
-  | PAssign _ idx rhs | PReduce _ idx rhs => forallb benign_e idx && benign_e rhs
-  | PIf c b o => benign_e c && forallb benign_s b && forallb benign_s o
-  | PFor _ lo hi b => benign_e lo && benign_e hi && forallb benign_s b
-  | PAlloc _ sz => forallb benign_e sz
+  | PIf _ b o => forallb benign_s b && forallb benign_s o
+  | PFor _ _ _ b => forallb benign_s b
   | PCall _ args => all_eholes args
-  | PWriteConfig c f => negb (String.eqb c hole_name) && negb (String.eqb f hole_name)
-  | _ => true
-  end.
-(* no configuration or field is literally called "_" *)
-Fixpoint no_underscore_cfg (s : stmt) : bool :=
-  match s with
-  | WriteConfig c f _ => negb (String.eqb c hole_name) && negb (String.eqb f hole_name)
-  | If _ b o => forallb no_underscore_cfg b && forallb no_underscore_cfg o
-  | For _ _ _ b => forallb no_underscore_cfg b
   | _ => true
   end.
 
